@@ -51,6 +51,30 @@ Definition obs_eqb (x y : obs) : bool :=
   | _, _ => false
   end.
 
+(** compact notation for an observed 0/1 string whose length is a multiple of 64 (used by the case
+    printer; a 640-character literal costs 30 ms to type-check): character [64*k + j] is bit [j] of
+    the [k]-th number.  It denotes the string itself: [VStr (bits_str [5])] is [VStr "1010...0"]. *)
+Fixpoint chars (n : nat) (w : N) (tail : string) : string :=
+  match n with
+  | O => tail
+  | S n' => String (if N.odd w then "1"%char else "0"%char) (chars n' (N.div2 w) tail)
+  end.
+Definition bits_str (ws : list N) : string := fold_right (chars 64) EmptyString ws.
+
+(** compact notation for an observed strictly ascending index list: the indices [base + 64*k + j]
+    such that bit [j] of the [k]-th number is set.  [idx_list 0 [5; 1]] is [[0; 2; 64]]. *)
+Fixpoint wbits (n : nat) (i : N) (w : N) (tail : list N) : list N :=
+  match n with
+  | O => tail
+  | S n' => if N.odd w then i :: wbits n' (N.succ i) (N.div2 w) tail
+            else wbits n' (N.succ i) (N.div2 w) tail
+  end.
+Fixpoint idx_list (base : N) (ws : list N) : list N :=
+  match ws with
+  | [] => []
+  | w :: r => wbits 64 base w (idx_list (base + 64) r)
+  end.
+
 (** the operations of a bitset representation; [None] = panic *)
 Record impl (T : Type) := {
   i_new : T;
